@@ -138,8 +138,12 @@ def main():
         finally:
             shutil.rmtree(d, ignore_errors=True)
     ids = all_ids() if a[1] == "all" else a[1].split(",")
-    missed = []
-    for mid in ids:
+    jobs = int(a[a.index("--jobs") + 1]) if "--jobs" in a else 1
+    record = a[a.index("--record") + 1] if "--record" in a else None
+    missed, results = [], []
+
+    def one(mid):
+        out = []
         d = make_copy()
         try:
             props = apply(mid, d)
@@ -147,7 +151,7 @@ def main():
                 if only and prop != only:
                     continue
                 if not os.path.exists(os.path.join(VERIF, "harness", "props", prop.lower() + ".py")):
-                    print("%-8s %s  (no check yet)" % (mid, prop))
+                    out.append((mid, prop, "NO-CHECK", 0.0, []))
                     continue
                 c, lines, t = run_check(prop, d, tier, seed)
                 if c == 1 and not any(l.startswith("VIOLATION") for l in lines):
@@ -156,15 +160,28 @@ def main():
                 if mid in HARMLESS:
                     # a behaviour-preserving rewrite: the right outcome is NO alarm
                     verdict = "QUIET-AS-EXPECTED" if c == 0 else "FALSE-ALARM"
-                    print("%-8s %s %s %.1fs %s" % (mid, prop, verdict, t, " | ".join(lines[:2])[:300]))
-                    if c != 0:
-                        missed.append((mid, prop))
-                    continue
-                print("%-8s %s %s %.1fs %s" % (mid, prop, verdict, t, " | ".join(lines[:2])[:300]))
-                if c != 1:
-                    missed.append((mid, prop))
+                out.append((mid, prop, verdict, t, lines))
         finally:
             shutil.rmtree(d, ignore_errors=True)
+        return out
+
+    from concurrent.futures import ThreadPoolExecutor
+    with ThreadPoolExecutor(max_workers=jobs) as ex:
+        for out in ex.map(one, ids):
+            for mid, prop, verdict, t, lines in out:
+                print("%-8s %s %s %.1fs %s" % (mid, prop, verdict, t, " | ".join(l for l in lines if not l.startswith("  ->"))[:300]), flush=True)
+                if verdict not in ("CAUGHT", "QUIET-AS-EXPECTED"):
+                    missed.append((mid, prop))
+                msgs = [l[5:] for l in lines if l.startswith("  ->")]
+                results.append(dict(id=mid, property=prop, verdict=verdict, seed=seed, tier=tier, seconds=round(t, 1),
+                                    first_message=(msgs[0][:400] if msgs else ""),
+                                    no_failing_input_found=any(l.rstrip().endswith("no-failing-input-found") for l in lines if l.startswith("VIOLATION"))
+                                    and not any(l.startswith("VIOLATION") and not l.rstrip().endswith("no-failing-input-found") for l in lines)))
+    if record:
+        old = []
+        if os.path.exists(record):
+            old = [r for r in json.load(open(record)) if r["id"] not in {x["id"] for x in results}]
+        json.dump(sorted(old + results, key=lambda r: r["id"]), open(record, "w"), indent=1)
     print("missed:", missed)
     return 1 if missed else 0
 
